@@ -34,9 +34,9 @@ def exCfg : Cfg :=
 def exSt : St :=
   { fileArgs := [("a", [some "C", none]), ("b", [some "C"])]
     postNodes := [("C", ["a", "b"])]
-    disk := [⟨"/p/files/a.txt".toList, 5, .out, []⟩, ⟨"/p/files/sub".toList, 4096, .out, []⟩,
-             ⟨"/p/files/sub/b.txt".toList, 7, .out, []⟩, ⟨"/p/files/scratch".toList, 3, .out, []⟩,
-             ⟨"/p/tmp/t".toList, 2, .tmp 1, []⟩] }
+    disk := [⟨"/p/files/a.txt".toList, 5, .out, [], 0⟩, ⟨"/p/files/sub".toList, 4096, .out, [], 0⟩,
+             ⟨"/p/files/sub/b.txt".toList, 7, .out, [], 0⟩, ⟨"/p/files/scratch".toList, 3, .out, [], 0⟩,
+             ⟨"/p/tmp/t".toList, 2, .tmp 1, [], 0⟩] }
 
 
 end Martian.Vdr
